@@ -23,7 +23,7 @@ PID = 'C20'
 
 # repairs present in /repo (fix: commits); the specification's clauses for them are switched on.
 # VERIF_C20_FIXES=F20a,F20b overrides (testing a repaired scratch copy together with VERIF_REPO_SRC).
-FIXES = []
+FIXES = ["F20a", "F20b", "F20c", "F20d"]     # repaired in /repo (fix: commits e88cbf8, 8bcae22, ef78463, f04633c)
 if os.environ.get('VERIF_C20_FIXES') is not None:
     FIXES = [x for x in os.environ['VERIF_C20_FIXES'].replace(' ', '').split(',') if x]
 
